@@ -1,0 +1,77 @@
+//go:build verif
+
+package consensus
+
+// Add-only accessors for the /verif C01 stream (build tag `verif`): handle one input WITHOUT
+// draining the internal message queue afterwards, and handle the k-th queued own message out of
+// order. They let the harness replay schedules in which a node hears its own proposal / block part /
+// votes late or out of order (receiveRoutine selects among several queues; sendInternalMessage falls
+// back to a goroutine when the internal queue is full). Nothing here changes behaviour.
+
+import (
+	"fmt"
+
+	cstypes "github.com/tendermint/tendermint/consensus/types"
+	"github.com/tendermint/tendermint/p2p"
+	"github.com/tendermint/tendermint/types"
+)
+
+// runOne executes f the way receiveRoutine would handle one item; a panic of the state machine is
+// returned as a string. The internal queue is left as it is.
+func (n *VerifNode) runOne(f func()) (panicked string) {
+	defer func() {
+		if r := recover(); r != nil {
+			panicked = fmt.Sprint(r)
+		}
+	}()
+	f()
+	n.drainStats()
+	return ""
+}
+
+func (n *VerifNode) HandleProposalNoDrain(p *types.Proposal, peer p2p.ID) string {
+	return n.runOne(func() { n.cs.handleMsg(msgInfo{&ProposalMessage{p}, peer}) })
+}
+
+func (n *VerifNode) HandleBlockPartNoDrain(height int64, round int32, part *types.Part, peer p2p.ID) string {
+	return n.runOne(func() { n.cs.handleMsg(msgInfo{&BlockPartMessage{height, round, part}, peer}) })
+}
+
+func (n *VerifNode) HandleVoteNoDrain(v *types.Vote, peer p2p.ID) string {
+	return n.runOne(func() { n.cs.handleMsg(msgInfo{&VoteMessage{v}, peer}) })
+}
+
+func (n *VerifNode) HandleTimeoutNoDrain(height int64, round int32, step cstypes.RoundStepType) string {
+	return n.runOne(func() { n.cs.handleTimeout(timeoutInfo{0, height, round, step}, n.cs.RoundState) })
+}
+
+func (n *VerifNode) HandleTxsAvailableNoDrain() string {
+	return n.runOne(func() { n.cs.handleTxsAvailable() })
+}
+
+// HandleOwn takes the k-th message off the internal queue (keeping the order of the others) and
+// handles it. ok=false: there is no k-th message.
+func (n *VerifNode) HandleOwn(k int) (panicked string, ok bool) {
+	var all []msgInfo
+	for {
+		select {
+		case mi := <-n.cs.internalMsgQueue:
+			all = append(all, mi)
+			continue
+		default:
+		}
+		break
+	}
+	var picked *msgInfo
+	for i := range all {
+		if i == k {
+			picked = &all[i]
+			continue
+		}
+		n.cs.internalMsgQueue <- all[i]
+	}
+	if picked == nil {
+		return "", false
+	}
+	return n.runOne(func() { n.cs.handleMsg(*picked) }), true
+}
